@@ -62,9 +62,9 @@ class CollectionValue(GenericValue):
         elif not isinstance(self._ast_node, ast.List):
             # the old value is no list (a tuple, set, dict, string ...)
             # and is replaced by the list of the tested values
-            if any(v not in self._old_value for v in self._new_value):
+            if any(not contains(self._old_value, v) for v in self._new_value):
                 flag = "fix"
-            elif any(v not in self._new_value for v in self._old_value):
+            elif any(not contains(self._new_value, v) for v in self._old_value):
                 flag = "trim"
             else:
                 return
